@@ -207,6 +207,7 @@ func (c *conn) receive() (err error) {
 		return
 	}
 	if resultChan, loaded := c.loadAndDelete(index); loaded {
+		verifYield("before-deliver", c, index)
 		resultChan <- data{
 			Index: index,
 			Body:  body,
